@@ -17,13 +17,25 @@ def crashW (w : World) : World :=
   { w with v := { best := ⟨w.s.syncedTo, (AMap.get w.s.sync w.s.syncedTo).getD "?"⟩ },
            queue := w.chain.drop (w.s.syncedTo + 1) }
 
+/-- the same for Start WITH the resync step (the repair of F2): when the block the wallet is synced to is
+    not the node's block at that height (or the node's chain is shorter), the node's block at the highest
+    common height is handed to the follower first -/
+def crashF (w : World) : World :=
+  let best : BlockMeta := ⟨w.s.syncedTo, (AMap.get w.s.sync w.s.syncedTo).getD "?"⟩
+  let at_ := min w.s.syncedTo (w.chain.length - 1)
+  let stale : Bool := decide (at_ < w.s.syncedTo) || (w.chain[at_]?.map (·.id) != some best.hash)
+  { w with v := { best := best },
+           queue := if stale then w.chain.drop at_ else w.chain.drop (w.s.syncedTo + 1) }
+
 inductive EvC
   | ev (x : Ev)
-  | crash
+  | crash          -- Start without the resync step (the code before the repair of F2)
+  | crashF         -- Start with the resync step
 
 def stepC (e : MW.Lemmas.Ledger.Env) (w : World) : EvC → World
   | .ev x => stepW e w x
   | .crash => crashW w
+  | .crashF => crashF w
 
 def runC (e : MW.Lemmas.Ledger.Env) (w : World) (evs : List EvC) : World := evs.foldl (stepC e) w
 
@@ -36,7 +48,7 @@ def freshAt (w : World) : Prop := w.s.syncedTo + 1 < w.chain.length ∨ w.queue 
     reorganisations announce something, every crash happens at a `freshAt` point -/
 def RunOK (e : MW.Lemmas.Ledger.Env) (G : Block) : World → List EvC → Prop
   | w, [] => ChainOK e G w.chain
-  | w, x :: xs => ChainOK e G w.chain ∧ (match x with | .ev ev => EvOK ev | .crash => freshAt w) ∧
+  | w, x :: xs => ChainOK e G w.chain ∧ (match x with | .ev ev => EvOK ev | .crash => freshAt w | .crashF => True) ∧
       RunOK e G (stepC e w x) xs
 
 theorem RunOK_head {e : MW.Lemmas.Ledger.Env} {G : Block} {w : World} {evs : List EvC} (h : RunOK e G w evs) :
@@ -79,6 +91,75 @@ theorem crashW_J {e : MW.Lemmas.Ledger.Env} {G : Block} {w : World} (hJ : J e G 
     intro hle
     omega
 
+/-- with the resync step a crash keeps `J` at EVERY commit boundary, without exception -/
+theorem crashF_J {e : MW.Lemmas.Ledger.Env} {G : Block} {w : World} (hJ : J e G w) (hN : ChainOK e G w.chain) :
+    J e G (crashF w) := by
+  obtain ⟨S, hI, hv, hS, hAR, hne, hq, hq0, hq1⟩ := hJ
+  obtain ⟨x, hx, ht⟩ := tipMeta_good hS.good
+  have hlen : w.s.syncedTo + 1 = S.length := hI.syncedTo
+  have hposN := hN.good.length_pos
+  have hsync : AMap.get w.s.sync w.s.syncedTo = some x.id := by
+    rw [hI.sync, syncOf]
+    have : w.s.syncedTo = S.length - 1 := by omega
+    rw [this, hx]; rfl
+  have hxs : S[w.s.syncedTo]? = some x := by
+    have : w.s.syncedTo = S.length - 1 := by omega
+    rw [this]; exact hx
+  have hbest : (⟨w.s.syncedTo, (AMap.get w.s.sync w.s.syncedTo).getD "?"⟩ : BlockMeta) = tipMeta S := by
+    rw [ht, hsync]
+    have : w.s.syncedTo = S.length - 1 := by omega
+    simp [this]
+  have hinj : IdInj (S ++ w.chain) := idInj_of_known (known := e.known) (fun y hy => by
+    rcases List.mem_append.1 hy with h | h
+    · exact hS.known y h
+    · exact hN.known y h)
+  have hlast : ∀ k, k < w.chain.length → (w.chain.drop k).getLast? = w.chain.getLast? := by
+    intro k hk
+    rw [List.getLast?_drop]
+    simp
+    intro hle; omega
+  have hne' : ∀ k, k < w.chain.length → w.chain.drop k ≠ [] := by
+    intro k hk h
+    have := List.drop_eq_nil_iff.1 h
+    omega
+  unfold crashF
+  simp only
+  by_cases hst : (decide (min w.s.syncedTo (w.chain.length - 1) < w.s.syncedTo) ||
+      (w.chain[min w.s.syncedTo (w.chain.length - 1)]?.map (·.id) != some ((AMap.get w.s.sync w.s.syncedTo).getD "?"))) = true
+  · -- stale: the block at the highest common height is announced, then everything above it
+    rw [if_pos hst]
+    have hat : min w.s.syncedTo (w.chain.length - 1) < w.chain.length := by
+      have := Nat.min_le_right w.s.syncedTo (w.chain.length - 1); omega
+    exact ⟨S, hI, hbest, hS, hAR, hne, fun b hb => hN.known b (List.mem_of_mem_drop hb),
+      fun h => absurd h (hne' _ hat), fun _ => hlast _ hat⟩
+  · -- not stale: the synced block is the node's block at that height
+    rw [if_neg hst]
+    simp only [Bool.or_eq_true, decide_eq_true_eq, bne_iff_ne, ne_eq, not_or, Decidable.not_not] at hst
+    obtain ⟨h1, h2⟩ := hst
+    have hat : min w.s.syncedTo (w.chain.length - 1) = w.s.syncedTo := by
+      have := Nat.min_le_left w.s.syncedTo (w.chain.length - 1); omega
+    rw [hat, hsync] at h2
+    have hle : w.s.syncedTo ≤ w.chain.length - 1 := by rw [← hat]; exact Nat.min_le_right _ _
+    refine ⟨S, hI, hbest, hS, hAR, hne, fun b hb => hN.known b (List.mem_of_mem_drop hb), ?_, ?_⟩
+    · intro hd
+      have hd' : w.chain.length ≤ w.s.syncedTo + 1 := List.drop_eq_nil_iff.1 hd
+      have hl : w.chain.length = S.length := by omega
+      cases hy : w.chain[w.s.syncedTo]? with
+      | none => rw [hy] at h2; simp at h2
+      | some y =>
+        rw [hy] at h2
+        have hid : x.id = y.id := by simpa using h2.symm
+        have := prefix_of_id hS.good hN.good hinj w.s.syncedTo x y hxs hy hid
+        rw [hlen] at this
+        rw [List.take_of_length_le (Nat.le_refl _), List.take_of_length_le (by omega)] at this
+        exact this
+    · intro hd
+      have hlt : w.s.syncedTo + 1 < w.chain.length := by
+        apply Nat.lt_of_not_le
+        intro hc
+        exact hd (List.drop_eq_nil_iff.2 hc)
+      exact hlast _ hlt
+
 /-- J along every history with crashes -/
 theorem J_runC {e : MW.Lemmas.Ledger.Env} {G : Block} (E : EnvHyp e G) :
     ∀ (evs : List EvC) (w : World), J e G w → RunOK e G w evs →
@@ -94,6 +175,7 @@ theorem J_runC {e : MW.Lemmas.Ledger.Env} {G : Block} (E : EnvHyp e G) :
       cases x with
       | ev ev => exact (J_step E ev hJ hN hN' hx).1
       | crash => exact crashW_J hJ hN hx
+      | crashF => exact crashF_J hJ hN
     exact ih _ hJ' hrest
 
 /-- whenever nothing is queued after a history with crashes, the wallet holds the books of the node's
